@@ -151,6 +151,11 @@ func runOneCompile(id int, doc map[string]interface{}, wellFormed bool, dir stri
 	line := map[string]interface{}{"op": "compile", "id": id, "doc": doc}
 	obs := map[string]interface{}{}
 	probe := map[string]interface{}{}
+	if crashedCases[id] {
+		line["go"] = map[string]interface{}{"panic": fatalText}
+		line["probe"] = probe
+		return line
+	}
 	func() {
 		defer func() {
 			if r := recover(); r != nil {
@@ -245,7 +250,27 @@ func runCompile(cfg Config) {
 			n, _ := nodes[names[g.Intn(len(names))]].(map[string]interface{})
 			return n
 		}
-		switch g.Intn(14) {
+		// a guard on some branch that cannot be compiled (case 10: bad source, 11: unknown interpreter)
+		badGuard := func(src map[string]interface{}) {
+			for _, k := range g.R.Perm(len(names)) {
+				n, _ := nodes[names[k]].(map[string]interface{})
+				br, _ := n["branching"].(map[string]interface{})
+				bs, _ := br["branches"].([]interface{})
+				if len(bs) == 0 {
+					continue
+				}
+				if b, is := bs[g.Intn(len(bs))].(map[string]interface{}); is {
+					b["guard"] = src
+					wellFormed = false
+					return
+				}
+			}
+		}
+		switch g.Intn(16) {
+		case 10:
+			badGuard(map[string]interface{}{"interpreter": "ecmascript", "source": "return this is a SYNTAX ERROR ((("})
+		case 11:
+			badGuard(map[string]interface{}{"interpreter": "cobol", "source": "return _.bindings;"})
 		case 0:
 			if len(names) > 0 {
 				nodes[names[g.Intn(len(names))]] = nil // a null node
